@@ -231,3 +231,111 @@ Proof.
   destruct (mstep c s i) as [e1 s1]. specialize (IH s1 H1).
   destruct (mrun c s1 l) as [e2 s2]. assumption.
 Qed.
+
+(** * Histories with aborted retry cycles (Close / Disconnect during the back-off sleep) *)
+
+(** Outside a retry cycle the counter is 0, and whenever the manager is not idle skipReconnect is off -
+    after ANY sequence of opens, closes (also in the middle of a cycle), dial outcomes and losses. *)
+Definition inv2 (s : mst) : Prop :=
+  (ph s <> ReconWait -> attempts s = 0) /\ (ph s <> Idle -> skip s = false).
+
+Lemma mstep_inv2 : forall c s i, inv2 s -> inv2 (snd (mstep c s i)).
+Proof.
+  intros c s i [H1 H2]. unfold inv2 in *. unfold mstep, start_reconnect.
+  destruct (ph s) eqn:P; destruct i; simpl; rewrite ?P;
+    repeat match goal with |- context [if ?b then _ else _] => destruct b eqn:?; simpl end;
+    split; intros; try congruence;
+    try (apply H1; congruence); try (apply H2; congruence);
+    repeat match goal with
+           | E : (_ && _)%bool = true |- _ => apply andb_true_iff in E; destruct E
+           | E : negb _ = true |- _ => apply negb_true_iff in E
+           end; try congruence.
+Qed.
+
+Lemma mrun_inv2 : forall c l s, inv2 s -> inv2 (snd (mrun c s l)).
+Proof.
+  intros c l; induction l as [|i l IH]; intros s H; simpl; [assumption|].
+  pose proof (mstep_inv2 c s i H) as H1.
+  destruct (mstep c s i) as [e1 s1]. specialize (IH s1 H1).
+  destruct (mrun c s1 l) as [e2 s2]. assumption.
+Qed.
+
+Lemma minit_inv2 : inv2 minit.
+Proof. unfold inv2, minit; simpl; split; intros; congruence. Qed.
+
+(** Whatever happened before (any number of aborted cycles included): once connected, a loss followed by
+    an outage of at least [limit] dials is answered by close, exactly [limit] rounds numbered from 1 with
+    the delays of counter 0.., one reconnect_failed, and nothing more. *)
+Lemma gives_up_after_any_history : forall c hist os1 os2,
+  0 < limit c < two32 -> no_reconnection c = false ->
+  Z.of_nat (length os1) = limit c ->
+  ph (snd (mrun c minit hist)) = Conn ->
+  mrun c (snd (mrun c minit hist)) (IDrop :: fails (os1 ++ os2)) =
+  (EClose :: rounds c 0 os1 ++ [EReconnectFailed], mkM Idle 0 false).
+Proof.
+  intros c hist os1 os2 Hl Hn Hlen Hph.
+  pose proof (mrun_inv2 c hist minit minit_inv2) as [H1 H2].
+  destruct (snd (mrun c minit hist)) as [p a sk]. simpl in *. subst p.
+  rewrite (H1 ltac:(discriminate)), (H2 ltac:(discriminate)).
+  apply drop_gives_up; assumption.
+Qed.
+
+Lemma reconnects_after_any_history : forall c hist os conv jit,
+  0 <= limit c < two32 -> no_reconnection c = false ->
+  (if limit c =? 0 then Z.of_nat (length os) < max_u32 else Z.of_nat (length os) < limit c) ->
+  ph (snd (mrun c minit hist)) = Conn ->
+  mrun c (snd (mrun c minit hist)) (IDrop :: fails os ++ [IDial true conv jit]) =
+  (EClose :: rounds c 0 os ++
+     [EAttempt (Z.of_nat (length os) + 1) (duration (bmin c) (bmax c) (Z.of_nat (length os)) conv jit);
+      EOpen; EReconnect (Z.of_nat (length os) + 1)],
+   mkM Conn 0 false).
+Proof.
+  intros c hist os conv jit Hl Hn Hlt Hph.
+  pose proof (mrun_inv2 c hist minit minit_inv2) as [H1 H2].
+  destruct (snd (mrun c minit hist)) as [p a sk]. simpl in *. subst p.
+  rewrite (H1 ltac:(discriminate)), (H2 ltac:(discriminate)).
+  apply drop_reconnects; assumption.
+Qed.
+
+(** A retry cycle aborted in its (k+1)-th sleep: k failed rounds, then close; idle, counter 0. *)
+Lemma wait_aborted : forall c os a sk,
+  0 <= limit c < two32 -> 0 <= a ->
+  (if limit c =? 0 then a + Z.of_nat (length os) < max_u32 else a + Z.of_nat (length os) < limit c) ->
+  mrun c (mkM ReconWait a sk) (fails os ++ [IClose]) = (rounds c a os ++ [EClose], mkM Idle 0 true).
+Proof.
+  intros c os; induction os as [|[cv jt] os IH]; intros a sk Hl Ha Hlt.
+  - reflexivity.
+  - simpl length in Hlt. rewrite Nat2Z.inj_succ in Hlt.
+    assert (Hn : next_attempts a = a + 1).
+    { apply next_attempts_succ. destruct (limit c =? 0); unfold max_u32, two32 in *; lia. }
+    simpl fails. simpl app. simpl mrun. unfold mstep at 1. simpl ph. cbv iota. simpl attempts.
+    rewrite Hn. unfold start_reconnect. simpl attempts. simpl skip.
+    assert (Hr : reached c (a + 1) = false).
+    { apply reached_false; [lia|]. destruct (limit c =? 0); lia. }
+    rewrite Hr.
+    change (map (fun '(conv0, jit0) => IDial false conv0 jit0) os) with (fails os).
+    rewrite (IH (a + 1) sk Hl ltac:(lia)); [reflexivity|].
+    destruct (limit c =? 0); lia.
+Qed.
+
+(** After an aborted cycle, Open() against a reachable server connects; against a dead one the retry
+    loop starts over from attempt 1 (the counter is 0, so maybeReconnectOnOpen lets it). *)
+Lemma aborted_then_open : forall c os,
+  0 <= limit c < two32 -> no_reconnection c = false ->
+  (if limit c =? 0 then Z.of_nat (length os) < max_u32 else Z.of_nat (length os) < limit c) ->
+  forall conv jit,
+  mrun c (mkM Conn 0 false) (IDrop :: fails os ++ [IClose; IOpen; IDial true conv jit]) =
+  (EClose :: rounds c 0 os ++ [EClose; EOpen], mkM Conn 0 false).
+Proof.
+  intros c os Hl Hn Hlt conv jit.
+  simpl mrun. unfold mstep at 1. simpl ph. cbv iota. rewrite Hn. simpl skip. simpl negb. simpl andb.
+  unfold start_reconnect. simpl attempts.
+  assert (Hr : reached c 0 = false).
+  { apply reached_false; [lia|]. destruct (limit c =? 0); unfold max_u32; lia. }
+  rewrite Hr. simpl skip.
+  replace (fails os ++ [IClose; IOpen; IDial true conv jit])
+    with ((fails os ++ [IClose]) ++ [IOpen; IDial true conv jit]) by (now rewrite <- app_assoc).
+  rewrite mrun_app. rewrite (wait_aborted c os 0 false Hl ltac:(lia)).
+  - simpl. now rewrite <- app_assoc.
+  - destruct (limit c =? 0); lia.
+Qed.
